@@ -187,6 +187,19 @@ func genPart(cfg Config, emit func(string, bool, []string)) {
 			g.emit("next %d 40", g.niters-1)
 			g.emit("iterall %d", g.niters-1)
 			g.emit("iterall %d", g.niters-1)
+			// (1b) the deepest keys removed again (a delete path longer than the transaction's parent cache)
+			g.emit("txn %d", g.head)
+			g.emit("del %s", hx([]byte(deep)))
+			g.emit("get %s", hx([]byte(deep)))
+			g.emit("del %s", hx([]byte(strings.Repeat("a", depth-1)+"b")))
+			g.emit("iter")
+			g.emit("len")
+			g.emit("commit")
+			g.addVer(g.head)
+			g.head = g.nvers - 1
+			g.emit("notify")
+			g.emit("viter %d", g.head)
+			g.emit("vget %d %s", g.head, hx([]byte(deep)))
 			// (2) a prefix with nothing under it, asked through a transaction that has already written a
 			// sibling; a key under that prefix is inserted afterwards: the channel handed out closes
 			base := g.head
